@@ -30,6 +30,8 @@ func initIterable() {
 
 	IterableBaseMixin = NewMixin()
 	IterableBaseMixin.IncludeMixin(IterableFiniteBaseMixin)
+	// headers/iterator.elh: Iterator::Base includes Iterable::Base
+	IteratorBaseMixin.IncludeMixin(IterableBaseMixin)
 	IterableInterface.AddConstantString("Base", Ref(IterableBaseMixin))
 	RegisterNativeMixin("Std::Iterable::Base", "value.IterableBaseMixin")
 
